@@ -11,6 +11,7 @@ inline void use()
 	Table table(ColumnList{ colInt });
 	Table::Row row = table.NewRow();     // pvCreateRaw -> pvAllocateRaw
 	table.Add(std::move(row));
+	Table::Row row3 = table.NewRow(colInt = 5);   // pvNewRow (catch path: pvDestroyRaw)
 	Table::Row row2 = table.Extract(0);   // pvMakeRow; ~DataRow at scope exit
 	table.Clear();                        // pvDestroyRaws -> pvDeallocateFreeRaws
 }
